@@ -109,6 +109,21 @@ func discRun(c *harness.C, variant string, r *explore.Recorder) *discOut {
 			if variant == "duplicated" {
 				seq = append(append([]discMsg(nil), seq...), seq...)
 			}
+			if variant == "unsorted-views" {
+				// a misbehaving peer lists its view in descending order (same members)
+				var rs []discMsg
+				for _, x := range seq {
+					d := append([]byte(nil), x.data...)
+					if len(d) > 33 && (len(d)-33)%2 == 0 {
+						l := d[33:]
+						for i, j := 0, len(l)-2; i < j; i, j = i+2, j-2 {
+							l[i], l[i+1], l[j], l[j+1] = l[j], l[j+1], l[i], l[i+1]
+						}
+					}
+					rs = append(rs, discMsg{x.from, d})
+				}
+				seq = rs
+			}
 			sc.Go(fmt.Sprintf("D%d", from), func() {
 				for _, x := range seq {
 					m.HandleMessage(x.from, x.data)
